@@ -269,8 +269,10 @@ def lean_gate(chk, prop):
     else:
         ok, out = lean_build()
     if not ok:
-        chk.violation("lean-build", "Lean library does not build: a proof obligation or the driver no longer checks",
-                      out[-4000:], found_input=False)
+        errs = [l for l in out.splitlines() if l.startswith("error") or "✖" in l or ": error" in l]
+        first = errs[0][:160] if errs else ""
+        chk.violation("lean-build", "Lean library does not build: a proof obligation or the driver no longer checks" + (" (%s)" % first if first else ""),
+                      "# theorem / module that no longer checks:\n" + "\n".join(errs[:40]) + "\n# ---- tail of the build output\n" + out[-3000:], found_input=False)
         return None
     audit = lean_audit(prop)
     if audit["problems"]:
